@@ -358,16 +358,30 @@ Definition c16_holds (c : c16_case) (o : V) : bool :=
   | _ => false
   end.
 
-(* known-finding region 1: some input tensor stores an empty element (explicit default or empty
-   sub-fiber); `&`, the source side of `<<` then report positions that skip those elements *)
+(* known-finding region 1: `&` and the source side of `<<` report positions that skip stored
+   empty elements (explicit defaults, empty sub-fibers) of their operands *)
 Fixpoint has_empty_elem (t : tree) : bool :=
   match t with
   | Leaf _ => false
   | Node es => existsb (fun ct => is_empty 0 (snd ct) || has_empty_elem (snd ct)) es
   end.
 
+(* a registered trace is affected when it is an intersect_<l> trace of a `&` level, or the
+   populate_<source> trace of a `<<` level over a single fiber, and an operand it reads stores
+   an empty element *)
+Definition affected (c : c16_case) (k : tkey) : bool :=
+  let i := Z.to_nat (key_rank k) in
+  let L := nth i (k_levels c) dflt_level in
+  let emp x := has_empty_elem (nth x (k_inputs c) (Node [])) in
+  (0 <=? key_rank k) && (key_rank k <? 50) && negb (l_ufmt L) &&
+  if key_kind k =? K_INT then
+    match l_src L with SAnd x y => emp x || emp y | SFib _ => false end
+  else if key_kind k =? K_POP then
+    l_pop L && negb (is_proj L) && match l_src L with SFib x => emp x | SAnd _ _ => false end
+  else false.
+
 Definition c16_region (c : c16_case) : Z :=
-  if existsb has_empty_elem (k_inputs c) then 1 else 0.
+  if existsb (affected c) (k_keys c) then 1 else 0.
 
 Definition c16_checker : checker c16_case :=
   {| model := c16_model; holds := c16_holds; region := c16_region |}.
